@@ -114,20 +114,17 @@ def opsMatSpecial (name : String) : Option Op :=
   | "m3.concat_self2" => some fun _ => do let m ← rm3; let n ← rm3; return okS (m * n).toList
   | "m4.concat_self" => some fun _ => do let m ← rm4; let n ← rm4; return okS (m * n).toList
   | "m3.inverse_transform2" => some fun _ => do
-      let m ← rm3; return ofOpt (m.invert.map (·.toList))
+      let m ← rm3; return ofOpt (m.inverseTransform.map (·.toList))
   | "m3.inverse_transform" => some fun _ => do
-      let m ← rm3; return ofOpt (m.invert.map (·.toList))
+      let m ← rm3; return ofOpt (m.inverseTransform.map (·.toList))
   | "m4.inverse_transform" => some fun _ => do
-      let m ← rm4; return ofOpt (m.invert.map (·.toList))
+      let m ← rm4; return ofOpt (m.inverseTransform.map (·.toList))
   | "m3.inverse_transform_vector2" => some fun _ => do
-      let m ← rm3; let v ← rv2
-      return ofOpt (m.invert.map (fun i => (i.transformVector2 v).toList))
+      let m ← rm3; let v ← rv2; return ofOpt ((m.inverseTransformVector2 v).map (·.toList))
   | "m3.inverse_transform_vector" => some fun _ => do
-      let m ← rm3; let v ← rv3
-      return ofOpt (m.invert.map (fun i => (i.transformVector v).toList))
+      let m ← rm3; let v ← rv3; return ofOpt ((m.inverseTransformVector v).map (·.toList))
   | "m4.inverse_transform_vector" => some fun _ => do
-      let m ← rm4; let v ← rv3
-      return ofOpt (m.invert.map (fun i => (i.transformVector v).toList))
+      let m ← rm4; let v ← rv3; return ofOpt ((m.inverseTransformVector v).map (·.toList))
   | _ => none
 
 end
